@@ -139,4 +139,43 @@ def termLe (age : String → Nat) (a b : Term) : Bool := termCompare age a b != 
 def termGt (age : String → Nat) (a b : Term) : Bool := termCompare age a b == .gt
 def termGe (age : String → Nat) (a b : Term) : Bool := termCompare age a b != .lt
 
+/-! ### where a partial string's tail cell is (heap.rs, finding C13-2)
+
+`compare_pstr_slices` walks two byte slices; when a slice reaches its terminating zero byte it
+returns `Continue(TailIndex(i), …)` and `ParallelHeapIter` goes on with the heap cell
+`i + cell_index!(l)` (`PStrContinuable::offset_by`), `l` being the byte offset at which that
+string was entered. Mirrored here: the index arithmetic only (cells are 8 bytes; the heap base
+is 8-aligned, so alignment of an address = alignment of the byte offset). -/
+
+/-- `cell_index!`. -/
+def cellIndex (b : Nat) : Nat := b / 8
+
+/-- `pstr_sentinel_length e`: the zero bytes that follow a text ending at byte `e`
+    (up to the next cell boundary; a full cell when `e` is on a boundary). -/
+def sentinelLen (e : Nat) : Nat := if e % 8 = 0 then 8 else 8 - e % 8
+
+/-- where the writer (`push_pstr_segment`, then the tail cell is pushed) puts the tail cell of
+    a string whose text ends at byte `e`: after the sentinel, and after one further cell of
+    zeroes when the sentinel is a single byte. -/
+def tailCellWritten (e : Nat) : Nat :=
+  cellIndex (e + sentinelLen e) + (if sentinelLen e = 1 then 1 else 0)
+
+/-- `scan_slice_to_str(slice).tail_idx` for a slice that begins AT the terminating zero byte
+    (which lies at byte `e`): `cell_index!((0 + sentinel).next_multiple_of(8) + (if sentinel ≤ 1
+    then 8 else 0))`. -/
+def tailIdxFromZero (e : Nat) : Nat :=
+  cellIndex ((sentinelLen e + 7) / 8 * 8 + (if sentinelLen e ≤ 1 then 8 else 0))
+
+/-- the cell taken as the tail of the LEFT string in the branch "`slice1` ends after `pos`
+    common bytes, `slice2` goes on"; the left string was entered at byte `l1`
+    (`offset_pos_1 = l1 % 8`). `fixed = false`: the pinned code, which leaves `offset_pos_1`
+    out; `fixed = true`: with the patch of finding C13-2. -/
+def leftTailCell (fixed : Bool) (l1 pos : Nat) : Nat :=
+  tailIdxFromZero (l1 + pos) + cellIndex (if fixed then pos + l1 % 8 else pos) + cellIndex l1
+
+/-- the same for the other two branches (both end / the right one ends), which already add the
+    misalignment (`offset_pos_1`, `offset_pos_2`) in the pinned code. -/
+def otherTailCell (l pos : Nat) : Nat :=
+  tailIdxFromZero (l + pos) + cellIndex (pos + l % 8) + cellIndex l
+
 end Scryer.Order
